@@ -61,7 +61,7 @@ Lemma pstep_secure : forall pc st i,
   p_tls pc = true -> forallb (secure_b RP) (snd (pstep pc st i)) = true.
 Proof.
   intros pc st i H.
-  destruct i as [| | | | | n e | | k stls | k stls]; cbn [pstep snd].
+  destruct i as [| | f | f | f | f n e | f | k stls | k stls]; cbn [pstep snd].
   all: try (unfold p_xaddr, p_base, urlschema; rewrite H; reflexivity).
   - (* PStart *) rewrite forallb_app. unfold p_start, p_server_ctx, p_xaddr, p_base, urlschema. rewrite H.
     destruct (p_srv pc); reflexivity.
@@ -287,7 +287,7 @@ Proof. intros [] [c|] h stls; reflexivity. Qed.
 
 Lemma pstep_by_role : forall pc st i, forallb (by_role RP) (snd (pstep pc st i)) = true.
 Proof.
-  intros pc st i. destruct i as [| | | | | n e | | k stls | k stls]; cbn [pstep snd]; try reflexivity.
+  intros pc st i. destruct i as [| | f | f | f | f n e | f | k stls | k stls]; cbn [pstep snd]; try reflexivity.
   - rewrite forallb_app. unfold p_start, p_server_ctx.
     destruct (p_srv pc); [destruct (p_tls pc)|]; reflexivity.
   - destruct (nth_error st k); cbn [snd]; [apply contact_by_role | reflexivity].
@@ -393,7 +393,8 @@ Section Scenario.
     destruct (HC (snd s) inp Hi) as [Hi1 H1].
     destruct (cstep (s_fixed c) (s_cc c) (snd s) inp) as [[cs1 ev1] err]. cbn [fst snd] in Hi1, H1.
     set (p1 := if match err with Some ESsl | Some ENotConnected => false | _ => true end
-               then pfold (s_pc c) [PGetMetadata; PHostedMetadata] (fst s, []) else (fst s, [])).
+               then pfold (s_pc c) [PGetMetadata (lib_pf (x_given c)); PHostedMetadata (lib_pf (p_base (s_pc c)))] (fst s, [])
+               else (fst s, [])).
     assert (Hp1 : forallb Q (snd p1) = true).
     { unfold p1. destruct (match err with Some ESsl | Some ENotConnected => false | _ => true end);
         [apply pfold_all; [exact HP | reflexivity] | reflexivity]. }
